@@ -292,9 +292,11 @@ CHECKS["C14"] = dict(
                "may not have looked the key up before), and restarts of a broker on its state directory after any prefix. After an acknowledged ban every use on "
                "that broker is refused, after an acknowledged unban accepted, a restart preserves the state, the other broker follows once the gossip is merged.",
     level_note="Trusted: paho codec, a capturing mesh.Gossip stub (payload bytes taken at broadcast time, merged through the real OnGossipBroadcast), the real "
-               "wall clock as the LWW clock (operations are far more than a nanosecond apart). Restart = clean Close + NewService; process kill is not covered here.",
+               "wall clock as the LWW clock (operations are far more than a nanosecond apart). Restart = clean Close + NewService in the main leg; the 'kill' leg runs the broker in a child process and SIGKILLs it after an "
+               "acknowledgement (process death only, no power-loss model).",
     rule="rapid-generated histories; non-trivial = a use of a key that has been toggled at least twice, or a restart after a toggle; distinct = distinct case value.",
-    legs=[dict(name="ban", test="^TestBan$", quick=dict(n=120, procs=4, batch=30, timeout=400), thorough=dict(n=12000, procs=14, batch=60, timeout=1200))],
+    legs=[dict(name="ban", test="^TestBan$", quick=dict(n=120, procs=4, batch=30, timeout=400), thorough=dict(n=12000, procs=14, batch=60, timeout=1200)),
+          dict(name="kill", test="^TestBanSurvivesKill$", quick=dict(n=12, procs=4, timeout=400), thorough=dict(n=600, procs=10, timeout=2400))],
 )
 
 CHECKS["C09"] = dict(
